@@ -623,6 +623,10 @@ impl VisitMut for Pre<'_> {
                             let a = self.lean(a);
                             Some(self.w.placeholder(format!("(← Str.index_from {recv} {a})")))
                         }
+                        (None, Some(b)) if matches!(r.limits, syn::RangeLimits::HalfOpen(_)) => {
+                            let b = self.lean(b);
+                            Some(self.w.placeholder(format!("(← Str.index_range {recv} (0 : Nat) {b})")))
+                        }
                         _ => {
                             *self.err = Some("unsupported range form in an index expression".into());
                             None
